@@ -1191,7 +1191,12 @@ static std::string lawBattery(const LawCase& c, const LawRef& L, const std::vect
 static void runLaw(const LawCase& c, Ctx& ctx)
 {
   resetGlobals(2);
-  std::string tag = std::string(lname(c.law)) + (c.style ? ":old" : ":new");
+  // variant = code path of the generator (Law.cpp), so that a recorded defect of one path does not hide the others
+  std::string variant = lname(c.law);
+  if (c.law == L_POISSON && c.style) variant += (c.p1 < 16.) ? "-product" : "-split";
+  if (c.law == L_BINOMIAL) variant += (c.n * c.p1 < 30.) ? "-binv" : (c.p1 <= 0.5 ? "-btpe" : "-btpe-phigh");
+  if (c.law == L_GAMMA && c.style) variant += (std::fabs(c.p1 - 1.) < 1e-5) ? "-exp" : (c.p1 > 1. ? "-gt1" : "-lt1");
+  std::string tag = variant + (c.style ? ":old" : ":new");
   ctx.label("law:" + tag);
   law_set_old_style(c.style != 0);
   law_set_random_seed(c.seed);
